@@ -695,7 +695,7 @@ func multiReplica(c *fw.Ctx, idx int) {
 		return true
 	}
 	sameHeads := waitUntil(30*time.Second, converged)
-	if !sameHeads && trustMode == "listed-others-only" {
+	if !sameHeads && trustMode != "trust-all" {
 		// control by one variable: nothing at all moved for 30 s although everybody is
 		// connected; now every replica is told to trust itself too (which it does anyway)
 		moved := false
@@ -705,13 +705,28 @@ func multiReplica(c *fw.Ctx, idx int) {
 			}
 		}
 		if !moved {
-			for _, rp := range reps {
-				rp.cons.Trust(ctx, rp.h.ID())
+			if trustMode == "listed-others-only" {
+				for _, rp := range reps {
+					rp.cons.Trust(ctx, rp.h.ID())
+				}
+				c.Eval("multi/control/self-trust")
+				if waitUntil(30*time.Second, converged) {
+					c.Violation("C02/replicas-that-trust-each-other-exchange-nothing/until-each-lists-itself",
+						"replicas that list each other (not themselves) as trusted exchanged no update for 30 s after the heal; they converged as soon as each was told to trust itself", script)
+					return
+				}
 			}
-			c.Eval("multi/control/self-trust")
+			// second control: the configured trust is stated again at run time (a no-op when
+			// the configuration took effect)
+			for _, rp := range reps {
+				for _, id := range ids {
+					rp.cons.Trust(ctx, id)
+				}
+			}
+			c.Eval("multi/control/trust-restated")
 			if waitUntil(30*time.Second, converged) {
-				c.Violation("C02/replicas-that-trust-each-other-exchange-nothing/until-each-lists-itself",
-					"replicas that list each other (not themselves) as trusted exchanged no update for 30 s after the heal; they converged as soon as each was told to trust itself", script)
+				c.Violation("C02/replicas-that-trust-each-other-exchange-nothing/until-the-configured-trust-is-restated/"+trustMode,
+					"replicas configured to trust each other exchanged no update for 30 s after the heal; they converged as soon as the same trust was stated again through Trust()", script)
 				return
 			}
 		}
